@@ -19,6 +19,7 @@ Binding      : spec -> code: every value of the TLC universe is replayed on the 
 import binascii, json, os, subprocess, sys
 from concurrent.futures import ThreadPoolExecutor
 from harness import core
+from harness.gen_tlc import light, tlc_light
 
 LEVEL = "model_checking"
 
@@ -29,6 +30,7 @@ CONSTANTS Variant = "%(variant)s"
   IntRange = {%(ints)s}
   MaxItems = %(items)d
   Depth = %(depth)d
+  MaxSrc = %(maxsrc)d
   Mode = "%(mode)s"
 %(invs)s
 CHECK_DEADLOCK FALSE
@@ -36,10 +38,10 @@ CHECK_DEADLOCK FALSE
 ADV = [49, 50, 115, 108, 100, 105, 45]        # 1 2 s l d i -
 
 
-def mc_cfg(mode="values", alpha=ADV, maxstr=1, ints=(0, 1, 2, 12), items=2, depth=1, variant="faithful"):
+def mc_cfg(mode="values", alpha=ADV, maxstr=1, ints=(0, 1, 2, 12), items=2, depth=1, variant="faithful", maxsrc=1):
     invs = {"values": ["RoundTrip", "DictOrder"], "keys": ["KeyRoundTrip"], "dump": []}[mode]
     return MC_CFG % dict(variant=variant, alpha=", ".join(map(str, alpha)), maxstr=maxstr,
-                         ints=", ".join(map(str, ints)), items=items, depth=depth, mode=mode,
+                         ints=", ".join(map(str, ints)), items=items, depth=depth, mode=mode, maxsrc=maxsrc,
                          invs="\n".join("INVARIANT " + i for i in invs))
 
 
@@ -259,7 +261,7 @@ def run_trace(ctx, recs, keys=False):
     tp = os.path.join(ctx.tmp, "fl_%d.json" % len(ctx.cov["tlc_runs"]))
     kp = tp + ".keys"
     core.write_json(tp, recs)
-    r = core.tlc("Trace_Flatten", workers=1, env={"TRACE_FILE": tp, "KEYS_OUT": kp}, timeout=3000)
+    r = core.tlc("Trace_Flatten", workers=1, env=light({"TRACE_FILE": tp, "KEYS_OUT": kp}), timeout=3000)
     ctx.add_tlc("Trace_Flatten", r, count_states=False)
     chk = core.tla_tuples(r.out, "CHECKED")
     if len(chk) != 1 or int(chk[0][0]) != len(recs):
@@ -285,14 +287,14 @@ def run(ctx):
     futs = [("MC_Flatten(values,depth=%d)" % (1 if quick else 2), "mc",
              pool.submit(core.tlc, "MC_Flatten", cfg_text=mc_cfg(depth=1 if quick else 2), workers=4 if quick else 8,
                          timeout=3000)),
-            ("MC_Flatten(keys)", "mc", pool.submit(core.tlc, "MC_Flatten", cfg_text=mc_cfg("keys", alpha=[48, 100, 120]),
+            ("MC_Flatten(keys)", "mc", pool.submit(core.tlc, "MC_Flatten", cfg_text=mc_cfg("keys", alpha=[48, 100, 120], maxsrc=1 if quick else 2),
                                                    workers=4, timeout=3000)),
             ("oracle dump", "dump", pool.submit(core.tlc, "MC_Flatten", cfg_text=mc_cfg("dump", depth=1), workers=1,
-                                                env={"FLATTEN_OUT": dump_path}, timeout=3000)),
+                                                env=light({"FLATTEN_OUT": dump_path}), timeout=3000)),
             ("domain:NUL in preamble", "nul", pool.submit(core.tlc, "MC_Flatten",
-                                                          cfg_text=mc_cfg("keys", alpha=[48, 100, 0]), workers=2))]
+                                                          cfg_text=mc_cfg("keys", alpha=[48, 100, 0], maxsrc=2), workers=1, env=light()))]
     for v in ("nolen", "notag", "nosort"):
-        futs.append(("sanity:" + v, "sanity", pool.submit(core.tlc, "MC_Flatten", cfg_text=mc_cfg(variant=v), workers=1)))
+        futs.append(("sanity:" + v, "sanity", pool.submit(tlc_light, "MC_Flatten", cfg_text=mc_cfg(variant=v))))
 
     # ---------------------------------------------------------------- code -> spec: random values
     rng = ctx.rng
